@@ -637,6 +637,7 @@ func (ex *Exec) finishPath(res *PathResult) {
 	ex.sol.send("(pop 1)\n")
 	res.Viol = ex.viol
 	res.Events = ex.events
+	res.KnownHits = ex.knownHits // engine-level obligations may have added hits
 }
 
 func (ex *Exec) nameInputs(m map[string]uint64) map[string]uint64 {
